@@ -23,6 +23,7 @@ import (
 	"github.com/anishathalye/porcupine"
 	"github.com/bartventer/httpcache/store/driver"
 	"github.com/bartventer/httpcache/store/expapi"
+	"github.com/bartventer/httpcache/store/fscache"
 	"github.com/bartventer/httpcache/store/memcache"
 
 	"verif/harness/run"
@@ -584,6 +585,72 @@ func concurrentHistory(conn driver.Conn, nkeys, nclients, opsPer int, seed uint6
 // TestC14ConcurrentFS: goroutines own disjoint key sets of one fs backend
 // (cross-key interference through shared directories, MkdirAll, the walker);
 // each key's sub-history is sequential and compared with a map directly.
+// TestC14Timeout: "stored values are isolated from the caller's buffers" also
+// when an operation times out. With a tiny operation timeout Set returns (with
+// or without an error) while its write may still be under way; the caller then
+// overwrites its buffer. Whatever ends up stored must be, in full, the value
+// that was passed to Set - or nothing.
+func TestC14Timeout(t *testing.T) {
+	r := run.Start(t, "C14", "timeout-isolation")
+	defer r.Finish()
+	n := r.Tiered(12, 200)
+	for i := 0; i < n; i++ {
+		if !r.Mine(i) {
+			continue
+		}
+		rng := r.Rand(i)
+		size := pick(rng, []int{1 << 20, 4 << 20, 300000})
+		enc := chance(rng, 0.3)
+		r.Begin(i, map[string]any{"value_bytes": size, "encrypted": enc, "timeout": "1ns"})
+		dir := ScratchDir()
+		opts := []fscache.Option{fscache.WithBaseDir(dir), fscache.WithTimeout(time.Nanosecond)}
+		if enc {
+			opts = append(opts, fscache.WithEncryption(TestKeyB64))
+		}
+		conn, err := fscache.Open("c", opts...)
+		if err != nil {
+			r.Inconclusive(err.Error())
+			os.RemoveAll(dir)
+			continue
+		}
+		key := fmt.Sprintf("http://a.example/to#%d", i)
+		buf := MakeValue(fmt.Sprintf("to%d", i), size, false)
+		want := append([]byte(nil), buf...)
+		serr := conn.Set(key, buf)
+		for j := range buf {
+			buf[j] = 'Z' // the caller's buffer is the caller's again
+		}
+		time.Sleep(300 * time.Millisecond) // an abandoned write finishes
+		backend := "fs"
+		if enc {
+			backend = "fsaes"
+		}
+		rc, err := Backend(backend, dir)
+		if err != nil {
+			r.Inconclusive(err.Error())
+			os.RemoveAll(dir)
+			continue
+		}
+		got, gerr := rc.Get(key)
+		r.AddEvaluations(1)
+		switch {
+		case errors.Is(gerr, driver.ErrNotExist):
+			r.Count("nothing_stored", 1)
+		case gerr != nil:
+			r.Count("get_error", 1)
+		case !bytes.Equal(got, want):
+			id, intact := ParseValue(got)
+			r.Violation("value-not-isolated", fmt.Sprintf("encrypted=%v,set-err=%v", enc, serr != nil), fmt.Sprintf("Set returned (%v) and the caller overwrote its buffer; the store then holds %d bytes that were never passed to Set (id %q, intact %v, starts %q)", serr, len(got), id, intact, string(got[:min(16, len(got))])), nil)
+		default:
+			r.Count("stored_exactly", 1)
+		}
+		r.Count(fmt.Sprintf("set_timed_out:%v", serr != nil), 1)
+		r.Nontrivial(fmt.Sprintf("to|%d|%d|%v", i, size, enc))
+		os.RemoveAll(dir)
+	}
+	r.Done()
+}
+
 func TestC14ConcurrentFS(t *testing.T) {
 	r := run.Start(t, "C14", "concurrent-fs")
 	defer r.Finish()
